@@ -66,6 +66,8 @@ def main():
             run.unproven('checker.unanalysable', '<%s rules>' % a.prop, 'all',
                          'the rules of %s could not analyse this tree (%s: %s at %s); the instances recorded before that point stand, '
                          'the remaining ones were not evaluated' % (a.prop, type(e).__name__, str(e)[:200], at))
+        import ownership
+        ownership.check_uncovered(run, a.prop, loader)
         import deps
         deps.apply(run, a.prop, tier, loader)
         import equiv
